@@ -2,7 +2,7 @@
 """Generates /verif/MANIFEST.json from the table below (keeps it valid and current)."""
 import json, os, subprocess
 
-HOOK_COMMITS = ["3713a50"]
+HOOK_COMMITS = ["3713a50", "e1437ee"]
 
 # id -> (technique, level text, level note, design ref)
 CHECKS = {
